@@ -216,7 +216,7 @@ func replaySpec(w core.Witness) string {
 
 func runSpec(r *core.Run, rtl bool) int {
 	r.ReplayKnown(replaySpec)
-	nPat := r.Pick(900, 14000)
+	nPat := r.Pick(1800, 20000)
 	maxLen := r.Pick(5, 6)
 	nDirected := r.Pick(40, 120)
 	base := rand.New(rand.NewSource(r.Seed*7919 + 17)).Int63()
